@@ -83,6 +83,8 @@ enum Op {
 	ForkPoint,
 	/// `is_orphan` + `orphans_len`
 	OrphanInfo(usize),
+	/// `process_block` of a block of the malformed stream: must be refused, must leave no trace
+	DeliverInvalid(usize),
 	/// not a chain op: a second `Store` handle on the chain's LMDB environment (as the peer store has)
 	/// commits a value of 48 KiB, pushing the environment over its resize threshold again and again
 	/// while the chain ops (NRD validate_tx: extending_readonly with nested reads, …) run
@@ -120,6 +122,7 @@ impl Op {
 			Op::HeightRange(_) => vec!["block_height_range_to_pmmr_indices"],
 			Op::ForkPoint => vec!["fork_point"],
 			Op::OrphanInfo(_) => vec!["is_orphan", "orphans_len"],
+			Op::DeliverInvalid(_) => vec!["process_block"],
 			Op::Fill(_) => vec![],
 		}
 	}
@@ -149,6 +152,7 @@ impl Op {
 			Op::HeightRange(_) => "height_range",
 			Op::ForkPoint => "fork_point",
 			Op::OrphanInfo(_) => "orphan_info",
+			Op::DeliverInvalid(_) => "deliver_invalid",
 			Op::Fill(_) => "fill_db",
 		}
 	}
@@ -163,11 +167,15 @@ struct Scenario {
 	kernels: Vec<Commitment>,
 	txs: Vec<Transaction>,
 	templates: Vec<Block>,
+	/// the malformed stream: (kind, block that must be refused)
+	invalid: Vec<(String, Block)>,
 	max_height: u64,
 	out_ids: Vec<grin_core::core::OutputIdentifier>,
 	commit_set: std::collections::HashSet<Commitment>,
 	/// per block: the outputs unspent in the state of that block (for get_merkle_proof pairs that exist)
 	unspent_at: Vec<Vec<usize>>,
+	heights: Vec<u64>,
+	hashes: Vec<Hash>,
 }
 
 #[derive(Default)]
@@ -552,21 +560,11 @@ fn exec(sh: &Shared, op: &Op, log: &mut ThreadLog, tid: usize) {
 			note(log, format!("get_locator_hashes:{}", cls(&r)));
 		}
 		Op::HeaderView => {
-			// one view of the header MMR: hold header_pmmr.read(); no header commit can happen meanwhile
-			let hp = c.header_pmmr();
-			let g = hp.read();
-			match (c.header_head(), g.head_hash()) {
-				(Ok(hh), Ok(mmr_head)) => {
-					let by_height = g.get_header_hash_by_height(hh.height);
-					if mmr_head != hh.last_block_h || by_height.as_ref().ok() != Some(&hh.last_block_h) {
-						log.fails.push(format!(
-							"view under header_pmmr.read(): the header MMR (head {}, entry at height {}: {:?}) is not that of the LMDB header head {} @ {} (thread {})",
-							mmr_head, hh.height, by_height.ok(), hh.last_block_h, hh.height, tid
-						));
-					}
-					note(log, "header_view:ok".into());
-				}
-				(a, b2) => log.fails.push(format!("header view: header_head {:?} head_hash {:?}", a.is_ok(), b2.is_ok())),
+			// one view of the header MMR (header_pmmr.read() held inside): its head is the db header head
+			// and every height up to it maps to the ancestor of the header head in the generated tree
+			match strong_header_view(c, &sc.by_hash, &sc.parent, &sc.heights, &sc.hashes) {
+				None => note(log, "header_view:ok".into()),
+				Some(m) => log.fails.push(format!("{} (thread {})", m, tid)),
 			}
 		}
 		Op::CoinbaseMaturity(i) => {
@@ -627,6 +625,14 @@ fn exec(sh: &Shared, op: &Op, log: &mut ThreadLog, tid: usize) {
 				}
 			}
 			note(log, format!("fork_point:{}", cls(&r)));
+		}
+		Op::DeliverInvalid(i) => {
+			let (kind, blk) = &sc.invalid[*i];
+			let r = c.process_block(blk.clone(), Options::SKIP_POW);
+			match &r {
+				Ok(_) => log.fails.push(format!("a block of the malformed stream ({}, height {}, on {}) was ACCEPTED under concurrency (thread {})", kind, blk.header.height, blk.header.prev_hash, tid)),
+				Err(e) => note(log, format!("deliver_invalid:{}:{}", kind, error_class(e))),
+			}
 		}
 		Op::OrphanInfo(b) => {
 			let is = c.is_orphan(&sc.blocks[*b].hash());
@@ -862,6 +868,47 @@ fn run(out: &mut Out, rng: &mut Rng, work: &str, cfg: &RunCfg, stats: &mut BTree
 			*b.stats.entry("steer:FAILED-no-orphan-pattern".into()).or_insert(0) += 1;
 		}
 	}
+	// --- the malformed stream: blocks that must be REFUSED, built on blocks well below the maximum
+	// work (their headers pass the header stage and are kept as fork headers: with less work than the
+	// final best block they never end up as header head).  Not recorded in the tree (the twin and the
+	// chain model never see them); kind A: double spend (spends again what its parent spent); kind B: a
+	// block that applies but carries a wrong kernel root (refused after the whole extension was built:
+	// the deepest rollback path of txhashset::extending)
+	let mut invalid: Vec<(String, Block)> = vec![];
+	{
+		let maxw = leaves.iter().map(|l| b.kit.blks[*l].work).max().unwrap();
+		// (not on the blocks kept back for the post-join patterns: their children would sit in the orphan pool)
+		let kept_from = match (&xreorg, &gfork) {
+			(Some((t, x, _, _)), _) => (*t).min(*x),
+			(None, Some(g)) => g[0],
+			_ => b.kit.blks.len(),
+		};
+		let cands: Vec<usize> = (1..kept_from.min(b.kit.blks.len())).filter(|i| b.kit.blks[*i].work + 2 < maxw && b.states.contains_key(i)).collect();
+		for _ in 0..6 {
+			if cands.is_empty() {
+				break;
+			}
+			let p = cands[rng.below(cands.len() as u64) as usize];
+			if rng.chance(1, 2) {
+				// A: an output the parent block itself spent
+				if let Some(pp) = b.kit.blks[p].parent {
+					let spent: Vec<usize> = b.states[&pp].keys().cloned().filter(|o| !b.states[&p].contains_key(o) && b.kit.outs[*o].value >= 5).collect();
+					if let Some(o) = spent.first() {
+						let v = b.kit.outs[*o].value;
+						if let Ok(tx) = b.kit.build_tx(&TxSpec { inputs: vec![*o], outputs: vec![(v - 1, None)], kernel: KSpec::Plain(1) }) {
+							if let Ok(blk) = b.kit.assemble(p, 1, &[tx], 0) {
+								invalid.push(("double-spend".into(), blk));
+							}
+						}
+					}
+				}
+			} else if let Ok(mut blk) = b.kit.assemble(p, 1, &[], 0) {
+				blk.header.kernel_root = blk.header.output_root;
+				invalid.push(("wrong-kernel-root".into(), blk));
+			}
+		}
+		*b.stats.entry(format!("malformed-stream:blocks-built={}", invalid.len())).or_insert(0) += 1;
+	}
 	let kit = &b.kit;
 	let nblk = kit.blks.len();
 	// blocks delivered in the concurrent phase: all but the ones kept back (the last ones built)
@@ -956,12 +1003,15 @@ fn run(out: &mut Out, rng: &mut Rng, work: &str, cfg: &RunCfg, stats: &mut BTree
 		kernels,
 		txs,
 		templates,
+		invalid,
 		max_height: kit.blks.iter().map(|r| r.height).max().unwrap(),
 		out_ids: kit
 			.outs
 			.iter()
 			.map(|o| grin_core::core::OutputIdentifier::new(if o.coinbase { grin_core::core::OutputFeatures::Coinbase } else { grin_core::core::OutputFeatures::Plain }, &o.commit))
 			.collect(),
+		heights: kit.blks.iter().map(|r| r.height).collect(),
+		hashes: kit.blks.iter().map(|r| r.block.hash()).collect(),
 		unspent_at: (0..kit.blks.len()).map(|i| b.states.get(&i).map(|m| m.keys().cloned().collect()).unwrap_or_default()).collect(),
 		commit_set: {
 			let mut set: std::collections::HashSet<Commitment> = std::collections::HashSet::new();
@@ -1074,6 +1124,9 @@ fn run(out: &mut Out, rng: &mut Rng, work: &str, cfg: &RunCfg, stats: &mut BTree
 						let op = rand_read(rng, &sc);
 						progs[t].push(op);
 					}
+					if !sc.invalid.is_empty() && rng.chance(1, 7) {
+						progs[t].push(Op::DeliverInvalid(rng.below(sc.invalid.len() as u64) as usize));
+					}
 				}
 			}
 		}
@@ -1105,6 +1158,7 @@ fn run(out: &mut Out, rng: &mut Rng, work: &str, cfg: &RunCfg, stats: &mut BTree
 						8 | 9 if cfg.long => Op::Fill(rng.below(100_000)),
 						10 => merkle_pair(rng, &sc),
 						11 => Op::Locator(rng.range(1, sc.blocks.len() as u64 - 1) as usize),
+						12 if !sc.invalid.is_empty() => Op::DeliverInvalid(rng.below(sc.invalid.len() as u64) as usize),
 						_ => rand_read(rng, &sc),
 					}
 				} else if cfg.long && rng.chance(1, 10) {
@@ -1402,8 +1456,7 @@ fn run(out: &mut Out, rng: &mut Rng, work: &str, cfg: &RunCfg, stats: &mut BTree
 				let (h, hh) = (c.head().unwrap(), c.header_head().unwrap());
 				format!("head={} hhead={}", kit.bid(&h.last_block_h), kit.bid(&hh.last_block_h))
 			};
-			let heights: Vec<u64> = sc.blocks.iter().map(|b| b.header.height).collect();
-			let hashes: Vec<Hash> = sc.blocks.iter().map(|b| b.hash()).collect();
+			let (heights, hashes) = (sc.heights.clone(), sc.hashes.clone());
 			let tag = format!("#ORACLE-FAIL C17 run={} seed={} threads={}: restart-after-concurrent-run:", run, seed_from_env(), n);
 			if let Some(m) = strong_header_view(&shared.chain, &sc.by_hash, &sc.parent, &heights, &hashes) {
 				out.raw(&format!("{} before the restart: {}", tag, m));
